@@ -325,6 +325,27 @@ func (r *Run) report(all []*Obligation, unbound, engErrs []string) int {
 			}
 			continue
 		}
+		if o.Class == "bounded" {
+			// a bounded stand-in is reported on its own, never counted as an obligation discharged
+			if o.Answer != "unsat" {
+				if f := matchFinding(r.Findings, r.Prop, o.Name); f != nil {
+					known++
+					knownNames = append(knownNames, o.Name+": "+f.What)
+					fmt.Printf("KNOWN-FINDING: property=%s obligation=%s %s\n", r.Prop, o.Name, f.What)
+					continue
+				}
+				violations++
+				undischarged = append(undischarged, o.Name+": bounded stand-in failed")
+				path := r.writeReplay(o)
+				suffix := ""
+				if !o.Reproduced {
+					suffix = " no-failing-input-found"
+				}
+				fmt.Printf("VIOLATION property=%s replay=%s obligation=%s answer=%s (bounded stand-in)%s\n", r.Prop, path, o.Name, o.Answer, suffix)
+				exit = 1
+			}
+			continue
+		}
 		obligations++
 		byClass[o.Class]++
 		if o.Answer == "unsat" {
